@@ -217,6 +217,12 @@ RESEND:
 	case <-sentOn.Closed():
 		// the connection was lost before the ack arrived: send the call again after recovery
 		// (send waits for the reconnect and fails with ErrConnectionClosed if the Conn was closed)
+		c.wireConnMu.Lock()
+		stale := c.wireConn == sentOn
+		c.wireConnMu.Unlock()
+		if stale && !c.state.CompareAndSwapNot(connStatusClosed, connStatusReconnecting) {
+			return nil, errors.ErrConnectionClosed
+		}
 		goto RESEND
 	}
 }
